@@ -1382,6 +1382,15 @@ package server
 //@   at call chanrecv#2 assert C09.idle.recheck: lastcall(ReplicationBufferQueue.Pop) > lastcall(CompareAndSwapUint32)
 //@   modifies all
 
+// C03/C11: a request that has been settled (ackCount == 0xff: answered, or never waiting for acknowledgements) is
+// never made pending again by the acknowledgement table: registering the record of a require-ack hold that was
+// answered TIMEOUT while its record was still queued re-armed it, and the unlock record that follows answered the
+// same request a second time with LOCKED_ERROR (repaired defect)
+//@ func (*ReplicationAckDB).ProcessLeaderPushLock
+//@   requires self != nil && aofLock != nil
+//@   ensures C03.ack.settled-stays,C11.ack.settled-stays: implies(calls(DoAckLock) == 0 && old(aofLock.lock) != nil && old(aofLock.lock.ackCount) == 0xff, old(aofLock.lock).ackCount == 0xff)
+//@   modifies all
+
 // C10/C03: on a follower, a result frame from the leader is handed to the text client only when it answers the
 // client's outstanding request: the outstanding id is cleared only by a frame that carries exactly that id
 //@ func (*TransparencyBinaryClientProtocol).processTextProcotol
